@@ -45,6 +45,19 @@ job neither declares nor was passed): a job must behave as if it were alone (Lea
 (`fresh_run`): alone -> ordinary report; only after/while other jobs -> signature `…-after-other-jobs` with the
 minimised group as replay; not reproducible -> `depends-on-process-history` (no-failing-input-found).
 
+Extension (Model/C18Ext.lean).  The alphabet of the histories also has `job(...)` (Job.__call__, "via": "call"), `job.name`
+read / assigned (a string, the empty string, not a string) at any point — also from the callback and while the task runs —,
+and progress reports whose USER callback returns a chosen object ("u": None, a dict with / without 'cancel_requested', an
+object without `.get`); the controlled task applies the real `perceval.runtime.cancel_requested` to what it gets back and the
+verdict is compared with the model's (`check_cancel_spec`); `str(job.status)` is compared with `job.status()` on every status
+query.  COOPERATIVE tasks (`Runner.task_coop`): the task is not commanded but decides its steps itself, the way the simulators
+do — report, test `cancel_requested(progress_callback(...))`, then raise RuntimeError("Cancel requested") / return the partial
+result / go on; the closed-loop model (`cstep`) predicts every step (coop_cancel_takes_effect, coop_no_spurious_stop).  SAMPLER
+jobs (`run_sampler`): real `Sampler(...).probs/.samples/.sample_count` jobs on local SLOS and CliffordClifford2017 processors,
+recorded through a subclass (task keyword arguments, every conversion call), compared with the model on the preset
+configuration `Preset.cfg` and judged directly (task receives the max_samples passed, conversion once per result and with the
+iteration's overrides, result types and sample counts, truthful final status, cancel before the run stops a strong simulation).
+
 Named residue: the atomic steps are whole API calls and whole task steps.  Races *inside* one Python API
 call other than the two forced schedules above (bytecode interleavings on the shared JobStatus, e.g. a status query
 between `start_run()` and `Thread.start()` in `execute_async`, a worker that ends between two statements of
@@ -98,8 +111,50 @@ class TaskFailure(Exception):
     pass
 
 
-EXC_CLASSES = [ValueError, RuntimeError, KeyError, ZeroDivisionError, TaskFailure, AssertionError]
-EXC_TEXTS = ["", "boom", "bad value: 3", "User has canceled the job", "None"]
+EXC_CLASSES = [ValueError, RuntimeError, KeyError, ZeroDivisionError, TaskFailure, AssertionError, AttributeError]
+EXC_TEXTS = ["", "boom", "bad value: 3", "User has canceled the job", "None", "Cancel requested",
+             "'bool' object has no attribute 'get'"]
+N_RAND_CLS, N_RAND_TXT = 6, 5     # what random histories draw from; the rest belongs to the cooperative task
+                                  # (Model/C18Ext: clsRuntime/txtCancelRequested = 1/5, clsAttribute/txtNoGet = 6/6)
+
+# what a user progress callback returns (model: `Reply`), several Python objects per class
+REPLY_OBJECTS = {
+    "none": [None],
+    "other": [True],              # not None, no `.get`: cancel_requested raises AttributeError ('bool' object ...)
+    "dict-null": [{}, {"phase": "x"}],
+    "dict-true": [{"cancel_requested": True}, {"cancel_requested": 1}, {"cancel_requested": "yes", "x": 0}],
+    "dict-false": [{"cancel_requested": False}, {"cancel_requested": 0}, {"cancel_requested": None}],
+}
+
+
+def reply_key(u):
+    if isinstance(u, str):
+        return u
+    d = u["dict"]
+    return "dict-null" if d is None else ("dict-true" if d else "dict-false")
+
+
+def reply_obj(u, variant=0):
+    objs = REPLY_OBJECTS[reply_key(u)]
+    return copy.deepcopy(objs[variant % len(objs)])
+
+
+def canon_reply(ret):
+    if ret is None:
+        return "none"
+    if isinstance(ret, dict):
+        return {"dict": (bool(ret["cancel_requested"]) if "cancel_requested" in ret else None)}
+    return "other"
+
+
+def task_verdict(ret):
+    """the REAL `perceval.runtime.cancel_requested` applied to what the progress callback returned, as the model's
+    verdict: True / False / "crash" (AttributeError: the object has no `.get`)"""
+    from perceval.runtime import cancel_requested
+    try:
+        return bool(cancel_requested(ret))
+    except AttributeError:
+        return "crash"
 
 RUNTIME_KINDS = {"twice", "unused", "stillRunning", "failed", "notAvailable"}
 PREDICATES = {  # JobStatus predicates of the five statuses a local job can take
@@ -109,6 +164,9 @@ PREDICATES = {  # JobStatus predicates of the five statuses a local job can take
     "ERROR": (False, True, False, True, False),
     "CANCELED": (False, True, False, True, False),
 }
+
+
+NOT_A_STRING = [None, 7, b"bytes", ["n"], 1.5]      # what a `setname` event with v = null assigns
 
 
 class Abort(BaseException):
@@ -232,7 +290,7 @@ def instant_segment(word, mouts, i):
 
 
 class Runner:
-    def __init__(self, cfg, ctor=None, instant=False, hook=None):
+    def __init__(self, cfg, ctor=None, instant=False, hook=None, coop=None):
         """`ctor`: HOW the constructor arguments are passed (None = everything explicitly): {"delta": "explicit" |
         "omit" | "none", "names": "explicit" | "omit", "mapfn": "explicit" | "omit"} — an argument can only be omitted
         (or passed as None) when its value is the documented default (no preset parameters / no positional names / no
@@ -241,6 +299,7 @@ class Runner:
         before event `index` of the word is performed (used to create and run OTHER jobs meanwhile)."""
         from perceval.runtime import LocalJob
         self.cfg = cfg
+        self.coop = coop              # program of a COOPERATIVE task (it decides its steps itself), or None
         self.instant = instant
         self.hook = hook
         self.entered = threading.Event()
@@ -252,6 +311,7 @@ class Runner:
         self.extra_entries = 0
         self.cb_log = []
         self.cb_open = False
+        self.cur_reply = None         # what the user's callback returns when the open call ends
         self.pending_exc = None       # last exception raised by a caller action while a callback was open
         self.propagated = None        # the exception that left the callback
         self.task_exc = None
@@ -270,7 +330,7 @@ class Runner:
             kwargs["delta_parameters"] = None
         if cfg["names"] or ctor.get("names", "explicit") != "omit":
             kwargs["command_param_names"] = [key_name(k) for k in cfg["names"]]
-        self.job = LocalJob(self.task, **kwargs)
+        self.job = LocalJob(self.task_coop if coop else self.task, **kwargs)
         self.cb1 = self.make_cb(1)
         self.cb2 = self.make_cb(2)
         if cfg["cb"]:
@@ -300,8 +360,9 @@ class Runner:
             cmd = self.next_cmd()
             kind = cmd[0]
             if kind == "prog":
+                self.cur_reply = cmd[2] if len(cmd) > 2 else None
                 ret = progress_callback(cmd[1] / 8, "phase")
-                self.acks.put(("progressed", ret))
+                self.acks.put(("progressed", ret, task_verdict(ret)))
             elif kind == "ret":
                 return cmd[1]
             elif kind == "raise":
@@ -311,6 +372,56 @@ class Runner:
                 raise Abort()
             else:                      # a callback command although no callback is open
                 self.acks.put(("skipped", kind))
+
+    def task_coop(self, progress_callback=None, **kw):
+        """A COOPERATIVE task, written the way the simulators are: it reports its progress values one after the other
+        and then returns its result; after every report it applies the real `perceval.runtime.cancel_requested` to what
+        the progress callback returned and, when that is true, raises RuntimeError("Cancel requested") (policy raise:
+        Simulator.probs_svd, simulate_detectors) or returns what it has (policy stop: the sampling loops).  The commands
+        it receives only let it take ITS next step — what that step is, it decides itself."""
+        from perceval.runtime import cancel_requested
+        self.calls += 1
+        if self.calls > 1:
+            self.extra_entries += 1
+            return {"results": 424242}
+        self.thread = threading.current_thread()
+        self.entered.set()
+        self.acks.put(("started", dict(kw), callable(progress_callback)))
+        prog = self.coop
+        todo = list(prog["reports"])
+        have, exec_request = False, None
+        while True:
+            cmd = self.next_cmd()
+            kind = cmd[0]
+            if kind == "abort":
+                raise Abort()
+            if kind in ("act", "propagate"):
+                self.acks.put(("skipped", kind))
+                continue
+            if have and prog["policy"] != "ignore":
+                have = False
+                try:
+                    stop = cancel_requested(exec_request)
+                except AttributeError as e:
+                    self.task_exc = e
+                    self.acks.put(("ended", "raise"))
+                    raise
+                if stop:
+                    if prog["policy"] == "raise":
+                        self.task_exc = RuntimeError("Cancel requested")
+                        self.acks.put(("ended", "raise"))
+                        raise self.task_exc
+                    self.acks.put(("ended", "ret"))
+                    return py_ret(prog["partial"])
+            if todo:
+                p = todo.pop(0)
+                self.cur_reply = cmd[2] if (kind == "prog" and len(cmd) > 2) else None
+                exec_request = progress_callback(p / 8, "phase")
+                have = True
+                self.acks.put(("progressed", exec_request, task_verdict(exec_request), p))
+            else:
+                self.acks.put(("ended", "ret"))
+                return py_ret(prog["result"])
 
     def make_cb(self, cid):
         def cb(p, phase=None):
@@ -332,7 +443,7 @@ class Runner:
                         raise Abort()
                     else:              # the next task step: the callback returns
                         self.pushback = cmd
-                        return None
+                        return self.cur_reply
             finally:
                 self.cb_open = False
         return cb
@@ -353,8 +464,16 @@ class Runner:
                 st = job.status
                 flags = [bool(job.is_running), bool(job.is_complete), bool(job.is_success), bool(job.is_failed),
                          bool(job.is_waiting)]
-                return {"o": "status", "s": st(), "msg": self.canon_msg(st(), st.stop_message), "p": st.progress * 8,
-                        "flags": flags}
+                return {"o": "status", "s": st(), "str": str(st), "msg": self.canon_msg(st(), st.stop_message),
+                        "p": st.progress * 8, "flags": flags}
+            if kind == "getname":
+                return {"o": "name", "s": job.name}
+            if kind == "setname":
+                try:
+                    job.name = NOT_A_STRING[len(ev.get("w", "")) % len(NOT_A_STRING)] if ev["v"] is None else ev["v"]
+                except TypeError as e:     # caught here (= by the user's code): never left to the callback
+                    return {"o": "exc", "e": "type", "cls": "TypeError", "text": str(e)[:200]}
+                return {"o": "nameset"}
             if kind == "cancel":
                 r = job.cancel()
                 return {"o": "done"} if r is None else {"o": "done", "returned": repr(r)[:40]}
@@ -366,7 +485,7 @@ class Runner:
                 return {"o": "accepted"} if r is job else {"o": "accepted", "returned": repr(r)[:40]}
             if kind == "sync":          # only reached for a nested call (inside a callback / while in flight)
                 args, kw = self.call_args(ev)
-                r = job.execute_sync(*args, **kw)
+                r = job(*args, **kw) if ev.get("via") == "call" else job.execute_sync(*args, **kw)
                 return {"o": "nested-sync-returned", "r": canon_ret(r)}
             return {"o": "bad-action", "e": kind}
         except Exception as e:
@@ -404,7 +523,7 @@ class Runner:
     def cmd_of(ev):
         k = ev["e"]
         if k == "prog":
-            return ("prog", ev["p"])
+            return ("prog", ev["p"], reply_obj(ev["u"], ev.get("uv", 0))) if "u" in ev else ("prog", ev["p"])
         if k == "ret":
             return ("ret", py_ret(ev["r"]))
         if k == "raise":
@@ -420,8 +539,14 @@ class Runner:
         if st["cb_open"]:
             a = self.wait()
             st["cb_open"] = False
-            if a[0] != "progressed" or a[1] is not None:
+            if a[0] != "progressed":
                 return {"o": "desync", "got": repr(a)[:120]}
+            if st.get("prog_out") is not None:     # what the task got back from that progress call, and made of it
+                st["prog_out"]["reply"] = canon_reply(a[1])
+                st["prog_out"]["verdict"] = a[2]
+                if len(a) > 3:
+                    st["prog_out"]["task_p"] = a[3]
+                st["prog_out"] = None
         return None
 
     def flight_step(self, ev, st, finish):
@@ -442,21 +567,32 @@ class Runner:
             a = self.wait()
             if a[0] == "cb":
                 st["cb_open"] = True
-                return {"o": "progressed", "cb": a[1], "p": a[2], "relay": False}
+                st["prog_out"] = {"o": "progressed", "cb": a[1], "p": a[2], "relay": False}
+                return st["prog_out"]      # "reply" / "verdict" are filled in when the callback has returned
             if a[0] == "progressed":
                 relay = isinstance(a[1], dict) and a[1].get("cancel_requested", False) is True
-                out = {"o": "progressed", "cb": None, "p": ev["p"], "relay": relay}
+                out = {"o": "progressed", "cb": None, "p": (a[3] if len(a) > 3 else ev["p"]), "relay": relay,
+                       "reply": canon_reply(a[1]), "verdict": a[2]}
                 if a[1] is not None and not relay:
                     out["returned"] = repr(a[1])[:60]
                 return out
+            if a[0] == "ended":
+                return {"o": "task-ended", "how": a[1]}
             return {"o": "desync", "got": repr(a)[:120]}
         if k in ("ret", "raise"):
             bad = self.close_cb(st)
             if bad:
                 return bad
+            if self.coop:              # the cooperative task says so itself when it ends; anything else: it went on
+                a = self.wait()
+                if a[0] != "ended":
+                    return {"o": "task-went-on", "got": repr(a)[:120]}
+                if a[1] != k:
+                    return {"o": "finished-otherwise", "how": a[1]}
             return finish()
         if k == "propagate":
             st["cb_open"] = False
+            st["prog_out"] = None
             return finish()
         # caller action performed inside the callback
         a = self.wait()
@@ -500,7 +636,10 @@ class Runner:
                     if self.thread.is_alive():
                         self.hung = True
             else:
-                res = {"val": canon_ret(self.job.execute_sync(*args, **kw))}
+                if ev.get("via") == "call":
+                    res = {"val": canon_ret(self.job(*args, **kw))}
+                else:
+                    res = {"val": canon_ret(self.job.execute_sync(*args, **kw))}
         except Abort:
             res = {"aborted": True}
         except Exception as e:
@@ -527,6 +666,7 @@ class Runner:
             self.acks.get_nowait()
         self.pushback = None
         st["cb_open"] = False
+        st["prog_out"] = None
         if any(outs[x] is not None and outs[x]["o"] != mouts[x]["o"] for x in [i] + seg):
             return None                # the code left the model's path: what follows cannot be driven
         return (seg[-1] + 1) if seg else i + 1
@@ -569,7 +709,7 @@ class Runner:
                         break
                     i = nxt
                     continue
-                outs[i] = self.perform(ev) if k in ("status", "cancel", "get", "async") else {"o": "not-executable"}
+                outs[i] = self.perform(ev) if k in CALLER_TOP else {"o": "not-executable"}
                 if k == "async" and outs[i]["o"] == "accepted":
                     phase = "async"
                     self.async_accepted = True
@@ -579,7 +719,7 @@ class Runner:
                 i += 1
                 continue
             # asynchronous flight, lock-step
-            if k in ("status", "cancel", "get", "sync", "async"):
+            if k in CALLER_KINDS:
                 if st["cb_open"] and ev.get("where") == "cb":
                     self.send(("act", ev))
                     outs[i] = self.flight_step(ev, st, None)
@@ -617,6 +757,10 @@ class Runner:
                 outs[x] = {"o": "not-executed"}
         self.cleanup()
         final = {"fnCalls": self.calls, "cbLog": self.cb_log}
+        try:
+            final["name"] = self.job.name
+        except Exception as e:
+            final["name"] = {"raised": f"{type(e).__name__}: {e}"[:120]}
         return outs, final
 
     def cleanup(self):
@@ -659,6 +803,12 @@ def out_matches(obs, mod):
             return f"progress: model {mod['p']}/8, code {obs['p']}/8"
         if tuple(obs["flags"]) != PREDICATES[mod["s"]]:
             return f"is_running/is_complete/is_success/is_failed/is_waiting = {obs['flags']} in status {mod['s']}"
+        if obs.get("str", mod["s"]) != mod["s"]:
+            return f"str(job.status) = {obs['str']!r}, model {mod['s']!r}"
+        return None
+    if o == "name":
+        return None if obs["s"] == mod["s"] else f"job.name: model {mod['s']!r}, code {obs['s']!r}"
+    if o == "nameset":
         return None
     if o == "done":
         return None if "returned" not in obs else "cancel() returned a value"
@@ -674,6 +824,13 @@ def out_matches(obs, mod):
         for f in ("cb", "p", "relay"):
             if obs[f] != mod[f]:
                 return f"progress call {f}: model {mod[f]}, code {obs[f]}"
+        if "reply" in mod and "reply" in obs:     # no "reply": the user's callback never returned (it let an exception escape)
+            if obs.get("reply") != mod["reply"]:
+                return f"the progress call returned {obs.get('reply')} to the task, model {mod['reply']}"
+            if obs.get("verdict") != mod["verdict"]:
+                return (f"cancel_requested(<what the progress call returned: {obs.get('reply')}>) = {obs.get('verdict')}, "
+                        f"model {mod['verdict']}")
+            return None
         return None if "returned" not in obs else "progress callback returned an unexpected value"
     if o == "finished":
         m, c = mod["sync"], obs["sync"]
@@ -700,6 +857,8 @@ def compare(word, outs, final, rep):
         return len(word), f"task function entered {final['fnCalls']} times, model {mf['fnCalls']}"
     if [list(e) for e in final["cbLog"]] != mf["cbLog"]:
         return len(word), f"callback log {final['cbLog']}, model {mf['cbLog']}"
+    if "name" in mf and "name" in final and final["name"] != mf["name"]:
+        return len(word), f"job.name at the end {final['name']!r}, model {mf['name']!r}"
     return None
 
 
@@ -760,6 +919,9 @@ def direct_oracle(cfg, word, outs, final, hung):
             elif accepted is None:
                 n_rejected += 1
         elif k == "status":
+            if o["o"] == "status" and o.get("str", o["s"]) != o["s"]:
+                return "status-forms-differ", (f"job.status() says {o['s']!r} but str(job.status) says {o['str']!r}: the "
+                                               "reported state is not one state")
             if in_flight:
                 if o["o"] == "exc":
                     sig = "status-in-sync-callback" if (accepted == "sync" and o.get("cls") == "AttributeError") \
@@ -922,7 +1084,8 @@ def execute(scn, rep, hook=None):
         ok, what = plain_one(scn["plain"], scn["mode"])
         return [{"o": "plain", "ok": ok, "what": what}], {}
     try:
-        runner = Runner(scn["cfg"], ctor=scn.get("ctor"), instant=bool(scn.get("instant")), hook=hook)
+        runner = Runner(scn["cfg"], ctor=scn.get("ctor"), instant=bool(scn.get("instant")), hook=hook,
+                        coop=scn.get("coop"))
     except Exception as e:      # the constructor of the real class refused legal arguments
         if hook is not None:
             hook[1]()
@@ -978,7 +1141,7 @@ def strip(scn):
     if "plain" in scn:
         return {"plain": scn["plain"], "mode": scn["mode"]}
     out = {"cfg": scn["cfg"], "word": scn["word"]}
-    for f in ("ctor", "instant"):
+    for f in ("ctor", "instant", "coop"):
         if scn.get(f):
             out[f] = scn[f]
     return out
@@ -1213,11 +1376,13 @@ def base_cfgs():
 def letters_for(mode, callkw):
     ex = call(e=mode, **callkw)
     return [ex, {"e": "status"}, {"e": "cancel"}, {"e": "get"},
-            {"e": "start"}, {"e": "prog", "p": 3}, {"e": "ret", "r": RET0}, {"e": "raise", "cls": 0, "msg": 1},
+            {"e": "start"}, {"e": "prog", "p": 3, "u": "none"}, {"e": "ret", "r": RET0}, {"e": "raise", "cls": 0, "msg": 1},
             {"e": "propagate"}]
 
 
 TASK_KINDS = ("start", "prog", "ret", "raise", "propagate")
+CALLER_KINDS = ("status", "cancel", "get", "sync", "async", "setname", "getname")
+CALLER_TOP = ("status", "cancel", "get", "async", "setname", "getname")     # executable outside a run as they are
 
 
 def enumerate_words(chk, cfg, letters, max_task, max_caller, max_exec):
@@ -1324,12 +1489,16 @@ def rand_word(chk, rng, cfg, max_len, malformed, mode=None):
             r = rng.random()
             if closing:
                 a = rng.choice([{"e": "start"}, {"e": "ret", "r": rand_ret(rng)},
-                                {"e": "raise", "cls": rng.randrange(len(EXC_CLASSES)), "msg": rng.randrange(len(EXC_TEXTS))}])
+                                {"e": "raise", "cls": rng.randrange(N_RAND_CLS), "msg": rng.randrange(N_RAND_TXT)}])
             elif r < 0.16:
                 a = rand_call(rng, cfg, mode if rng.random() < 0.85 else rng.choice(["sync", "async"]),
                               malformed and rng.random() < 0.7)
-            elif r < 0.32:
+                if a["e"] == "sync" and rng.random() < 0.3:
+                    a["via"] = "call"            # job(...) instead of job.execute_sync(...)
+            elif r < 0.27:
                 a = {"e": "status"}
+            elif r < 0.32:
+                a = rand_name_event(rng)
             elif r < 0.42:
                 a = {"e": "cancel"}
             elif r < 0.54:
@@ -1337,14 +1506,14 @@ def rand_word(chk, rng, cfg, max_len, malformed, mode=None):
             elif r < 0.62:
                 a = {"e": "start"}
             elif r < 0.82:
-                a = {"e": "prog", "p": rng.randint(0, 8)}
+                a = {"e": "prog", "p": rng.randint(0, 8), "u": rand_reply(rng), "uv": rng.randrange(3)}
             elif r < 0.90:
                 a = {"e": "ret", "r": rand_ret(rng)}
             elif r < 0.95:
-                a = {"e": "raise", "cls": rng.randrange(len(EXC_CLASSES)), "msg": rng.randrange(len(EXC_TEXTS))}
+                a = {"e": "raise", "cls": rng.randrange(N_RAND_CLS), "msg": rng.randrange(N_RAND_TXT)}
             else:
                 a = {"e": "propagate"}
-            if a["e"] in ("status", "cancel", "get", "sync", "async"):
+            if a["e"] in CALLER_KINDS:
                 a["where"] = rng.choice(["cb", "main"])
             props.append(a)
         rep = chk.lean.ask({"op": "ext", "fixed": True, "cfg": cfg, "word": word, "letters": props})
@@ -1363,8 +1532,28 @@ def rand_word(chk, rng, cfg, max_len, malformed, mode=None):
         if phase_after(chk, cfg, word) in ("idle", "done"):
             break
         word.append(a)
-    word.extend([{"e": "status"}, {"e": "get"}, {"e": "get"}])
+    word.extend([{"e": "status"}, {"e": "get"}, {"e": "get"}, {"e": "getname"}])
     return word
+
+
+NAMES = ["run 1", "", "Job", "unnamed", "x", "sampling / n=3", "\u00e9t\u00e9"]
+
+
+def rand_name_event(rng):
+    r = rng.random()
+    if r < 0.4:
+        return {"e": "getname"}
+    if r < 0.55:
+        return {"e": "setname", "v": None, "w": "x" * rng.randrange(5)}     # not a string (which one: NOT_A_STRING)
+    return {"e": "setname", "v": rng.choice(NAMES)}
+
+
+def rand_reply(rng):
+    """what the user's progress callback returns: mostly None"""
+    r = rng.random()
+    if r < 0.7:
+        return "none"
+    return rng.choice(["other", {"dict": None}, {"dict": True}, {"dict": False}, {"dict": False}])
 
 
 def make_instant(chk, cfg, word):
@@ -1580,7 +1769,20 @@ def note_branches(chk, scn, rep):
                 rejected += 1
         if k == "status" and mode is None and rejected:
             chk.branch("status-after-rejection")
+        if k == "setname":
+            chk.branch("name-type-error" if oo == "exc" else ("name-unnamed" if ev["v"] == "" else "name-set"))
+        if k in ("setname", "getname") and flight:
+            chk.branch("name-in-flight")
+        if k == "prog" and "verdict" in o:
+            if o["verdict"] is True and not o["relay"]:
+                chk.branch("user-reply-cancel")
+            if o["verdict"] == "crash":
+                chk.branch("user-reply-crash")
+            if o["relay"]:
+                chk.branch("relay-understood")
         if k in ("sync", "async"):
+            if oo == "accepted" and ev.get("via") == "call":
+                chk.branch("job-call")
             if oo == "accepted":
                 mode, flight = k, True
                 chk.branch(k)
@@ -1638,7 +1840,8 @@ def word_sig(scn):
         return json.dumps(["plain", scn["plain"], scn["mode"]])
     c = scn["cfg"]
     return json.dumps([c["names"], c["cmd"], c["mapping"], c["map"], c["cb"], scn.get("ctor"), bool(scn.get("instant")),
-                       [[e.get(f) for f in ("e", "p", "r", "cls", "msg", "args", "kw", "cbkw", "where")] for e in scn["word"]]],
+                       [[e.get(f) for f in ("e", "p", "r", "cls", "msg", "args", "kw", "cbkw", "where", "u", "v", "via")]
+                        for e in scn["word"]], scn.get("coop")],
                       sort_keys=True)
 
 
@@ -1688,7 +1891,8 @@ def handle(chk, scn, seen, rep=None):
             seen.sigs[("seen", kind, sig)] += 1
             chk.count("failures", f"{kind}:{sig}")
         else:
-            small = strip(scn) if os.environ.get("C18_NOSHRINK") else shrink(chk, scn, sig)
+            # (the steps of a cooperative task are its own: its history cannot be edited event by event)
+            small = strip(scn) if (os.environ.get("C18_NOSHRINK") or scn.get("coop")) else shrink(chk, scn, sig)
             r2 = judge(chk, small)
             if r2 is None or r2[1] != sig:
                 small, r2 = strip(scn), res
@@ -1767,6 +1971,670 @@ def plain_scenarios(chk, seen):
             seen.record(scn)
 
 
+def coop_scenario(chk, cfg, prog, cword, instant=False):
+    """The closed loop of Model/C18Ext (`cstep`): the model says which step the cooperative task takes at every tick;
+    the result is an ordinary history (Lean: coop_histories_are_histories) whose task events are then NOT commanded
+    but left to the real cooperative task (`Runner.task_coop`, which uses the real cancel_requested)."""
+    rep = chk.lean.ask({"op": "coop", "fixed": True, "cfg": cfg, "prog": prog, "word": cword})
+    if "err" in rep:
+        raise core.LeanError(f"model rejected the closed-loop history: {rep['err']}")
+    word = []
+    for e, t in zip(cword, rep["evs"]):
+        if e["e"] != "tick":
+            word.append(e)
+        elif t is None:
+            word.append({"e": "start"})                   # nothing to do for the task: disabled in the model, skipped
+        elif t["e"] == "prog":
+            word.append({"e": "prog", "p": t["p"], "u": e["u"], "uv": e.get("uv", 0)})
+        else:
+            word.append(t)
+    scn = {"cfg": cfg, "word": word, "coop": prog}
+    if instant:
+        t = trace(chk, scn)
+        acc = next((x for x, o in enumerate(t["outs"]) if o["o"] == "accepted"), None)
+        if acc is not None and word[acc]["e"] == "async" and instant_segment(word, t["outs"], acc) is not None:
+            scn["instant"] = True
+    return scn, rep
+
+
+def note_coop(chk, prog, rep):
+    chk.branch("coop")
+    chk.branch(f"coop-{prog['policy']}")
+    st = rep["final"]["status"]
+    msg = rep["final"]["msg"]
+    if rep["final"]["cancelReq"] and rep["final"]["todo"] and prog["policy"] != "ignore" and rep["final"]["phase"] == "done":
+        chk.branch("coop-cancel-cuts-task-short")
+    if msg == {"task": [1, 5]}:
+        chk.branch("coop-raise-cancel-requested")
+    if msg == {"task": [6, 6]}:
+        chk.branch("coop-attribute-error")
+    if st == "SUCCESS" and rep["final"]["todo"] and prog["policy"] == "stop":
+        chk.branch("coop-stopped-by-callback-success")
+    if st == "CANCELED" and prog["policy"] == "stop" and rep["final"]["todo"]:
+        chk.branch("coop-stop-canceled-partial")
+    chk.count("coop-final", f"{prog['policy']}:{st}")
+
+
+def rand_coop(chk, rng):
+    cfg = rand_cfg(rng)
+    mode = rng.choice(["sync", "async"])
+    prog = {"reports": [rng.randint(0, 8) for _ in range(rng.randint(0, 5))], "result": rand_ret(rng),
+            "partial": rng.choice([{"t": "dict", "v": 0}, {"t": "dlist", "l": []}, {"t": "none"},
+                                   {"t": "dlist", "l": [[[], 1]]}]),
+            "policy": rng.choice(["raise", "raise", "stop", "stop", "ignore"])}
+    in_cb = rng.random() < 0.4          # all in-flight caller actions inside the callback (then "instant" is possible)
+    cword = []
+    if rng.random() < 0.15:
+        cword.append({"e": "cancel"})
+    cword.append(rand_call(rng, cfg, mode, False))
+    if mode == "sync" and rng.random() < 0.3:
+        cword[-1]["via"] = "call"
+    n_ticks = len(prog["reports"]) + 3
+    for _ in range(n_ticks):
+        cword.append({"e": "tick", "u": rand_reply(rng) if rng.random() < 0.5 else "none", "uv": rng.randrange(3)})
+        for _ in range(rng.choice([0, 0, 1, 1, 2])):
+            a = rng.choice([{"e": "status"}, {"e": "cancel"}, {"e": "cancel"}, {"e": "get"}, {"e": "status"}])
+            a = dict(a, where=("cb" if in_cb else rng.choice(["cb", "main"])))
+            cword.append(a)
+    cword += [{"e": "status"}, {"e": "get"}, {"e": "cancel"}, {"e": "status"}, {"e": "get"}]
+    return cfg, prog, cword, (mode == "async" and in_cb and rng.random() < 0.7)
+
+
+def coop_scenarios(chk, seen):
+    """Deterministic closed-loop histories: policy raise / stop / ignore x sync / async / instant x the cancel requested
+    before the run, from the callback after the first report, from the caller thread, never, or only by the user's
+    callback returning {'cancel_requested': True} / an object without .get."""
+    cfg = {"names": [1], "cmd": [], "mapping": [[2, 3]], "map": True, "cb": True}
+    tail = [{"e": "status"}, {"e": "get"}, {"e": "status"}, {"e": "get"}]
+    n = 0
+    for policy in ("raise", "stop", "ignore"):
+        prog = {"reports": [1, 2, 3, 4], "result": RET0, "partial": {"t": "dlist", "l": [[[[2, 8]], 1]]}, "policy": policy}
+        for mode in ("sync", "async", "instant"):
+            m = "async" if mode == "instant" else mode
+            T = {"e": "tick", "u": "none"}
+            variants = {
+                "cancel-before": [{"e": "cancel"}, call(args=[5], e=m), T, T, T, T, T, T],
+                "cancel-in-cb": [call(args=[5], e=m), T, T, {"e": "cancel", "where": "cb"}, T, T, T, T, T],
+                "no-cancel": [call(args=[5], e=m), T, T, T, T, T, T, T],
+                "callback-asks": [call(args=[5], e=m), T, T, {"e": "tick", "u": {"dict": True}}, T, T, T, T],
+                "callback-no-get": [call(args=[5], e=m), T, T, {"e": "tick", "u": "other"}, T, T, T, T],
+                "cancel-after-last-report": [call(args=[5], e=m), T, T, T, T, T, {"e": "cancel", "where": "cb"}, T, T],
+            }
+            if mode == "async":
+                variants["cancel-main"] = [call(args=[5], e=m), T, T, {"e": "cancel", "where": "main"},
+                                           {"e": "status", "where": "main"}, T, T, T, T, T]
+            for name, cw in variants.items():
+                scn, rep = coop_scenario(chk, cfg, prog, copy.deepcopy(cw + tail), instant=(mode == "instant"))
+                note_coop(chk, prog, rep)
+                chk.branch("coop-scenario")
+                if scn.get("instant"):
+                    chk.branch("coop-instant")
+                handle(chk, scn, seen)
+                n += 1
+    chk.extra["coop_scenarios"] = n
+
+
+# ------------------------------------------------------------------------------------------------
+# the jobs Sampler creates (presets of delta_parameters / command_param_names), on local processors
+# ------------------------------------------------------------------------------------------------
+SAMPLER_KEYS = {0: "max_samples", 9: "max_shots", 7: "input_state", 6: "min_detected_photons"}
+SAMPLER_IDS = {v: k for k, v in SAMPLER_KEYS.items()}
+SAMPLER_INPUTS = [[1, 1], [1, 0], [0, 1], [2, 0]]
+
+
+def sampler_preset(spec, probs_count):
+    """which of the four presets of Model/C18Ext a (backend, method) pair gets (written from the contract: the
+    backend's native command is used when it is the method asked for, else a conversion)"""
+    native_probs = spec["backend"] == "SLOS"
+    if native_probs:
+        return {"k": "probsNative"} if spec["method"] == "probs" else {"k": "sampleViaProbs", "shots": spec["shots"]}
+    if spec["method"] == "probs":
+        return {"k": "probsViaSamples", "count": probs_count}
+    return {"k": "samplesNative", "conv": spec["method"] == "sample_count"}
+
+
+def sampler_call(how, mode):
+    """the model's Call of a way of passing max_samples (Model/C18Ext `How.call`) + one unknown keyword form"""
+    kind = how[0]
+    args, kw = [], []
+    if kind in ("pos", "posKw"):
+        args = [how[1]]
+    if kind == "pos2":
+        args = [how[1], how[2]]
+    if kind == "kw":
+        kw = [[0, how[1]]]
+    if kind == "posKw":
+        kw = [[0, how[2]]]
+    if kind == "kwx":
+        kw = [[how[1], how[2]]]
+    c = call(args=args, kw=kw, e=("async" if mode == "async" else "sync"))
+    if mode == "call":
+        c["via"] = "call"
+    return c
+
+
+def run_sampler(spec):
+    """One real Sampler job on a local processor.  The Sampler is subclassed only to RECORD: the keyword arguments the
+    task function receives (+ what it returned / raised, + the thread it ran in) and every call of the result conversion
+    (input object, keyword arguments, output object).  -> observations, in the vocabulary of the job model."""
+    import functools
+    import perceval as pcvl
+    from perceval.algorithm import Sampler
+
+    rec = {"task": [], "conv": [], "thread": None, "raised": None, "returned": None, "cb": 0}
+
+    def wrap_task(name):
+        def task(self, *a, **kw):
+            rec["thread"] = threading.current_thread()
+            rec["task"].append({k: v for k, v in kw.items() if k != "progress_callback"})
+            if a:
+                rec["task"][-1]["*args"] = len(a)
+            try:
+                r = getattr(Sampler, name)(self, *a, **kw)
+            except Exception as e:
+                rec["raised"] = e
+                raise
+            rec["returned"] = r
+            if isinstance(r, dict) and "results_list" in r:
+                rec["raw"] = [id(e["results"]) for e in r["results_list"]]
+            elif isinstance(r, dict) and "results" in r:
+                rec["raw"] = [id(r["results"])]
+            return r
+        task.__name__ = name
+        return task
+
+    def wrap_conv(f):
+        @functools.wraps(f)
+        def conv(x, *a, **kw):
+            out = f(x, *a, **kw)
+            rec["conv"].append({"in": x, "kw": dict(kw), "out": out, "extra": len(a)})
+            return out
+        return conv
+
+    ns = {n: wrap_task(n) for n in ("_probs_wrapper", "_samples_wrapper", "_probs_iterate_locally",
+                                    "_samples_iterate_locally")}
+    ns["_METHOD_MAPPING"] = {m: {k: wrap_conv(f) for k, f in d.items()} for m, d in Sampler._METHOD_MAPPING.items()}
+    RecSampler = type("RecSampler", (Sampler,), ns)
+
+    proc = pcvl.Processor(spec["backend"], pcvl.BS())
+    proc.with_input(pcvl.BasicState(SAMPLER_INPUTS[0]))
+    proc.min_detected_photons_filter(0)
+    sampler = RecSampler(proc, max_shots_per_call=spec["shots"]) if spec["shots"] is not None else RecSampler(proc)
+    its = []
+    for it in spec["iters"]:
+        d = {}
+        for k, v in it:
+            d[SAMPLER_KEYS[k]] = pcvl.BasicState(SAMPLER_INPUTS[v]) if k == 7 else v
+        its.append(d)
+    if its:
+        sampler.add_iteration_list(its)
+    job = getattr(sampler, spec["method"])
+    obs = {"probs_count": Sampler.PROBS_SIMU_SAMPLE_COUNT, "outs": {}}
+    if spec.get("name") is not None:
+        job.name = spec["name"]
+
+    def user_cb(p, phase=None):
+        rec["cb"] += 1
+        if spec.get("cancel") == "cb":
+            job.cancel()
+
+    if spec.get("cb") or spec.get("cancel") == "cb":
+        job.set_progress_callback(user_cb)
+    if spec.get("cancel") == "before":
+        job.cancel()
+    c = sampler_call(spec["how"], spec["mode"])
+    args = list(c["args"])
+    kw = {SAMPLER_KEYS.get(k, f"k{k}"): v for k, v in c["kw"]}
+    ret = None
+    try:
+        if spec["mode"] == "async":
+            r = job.execute_async(*args, **kw)
+            obs["outs"]["exec"] = {"o": "accepted"} if r is job else {"o": "accepted", "returned": repr(r)[:40]}
+            waited = 0.0
+            while rec["thread"] is None and not job.is_complete:      # hang detector only
+                threading.Event().wait(0.002)
+                waited += 0.002
+                if waited > WAIT:
+                    raise HarnessTimeout("Sampler job: the worker thread did not enter the task")
+            if rec["thread"] is not None:
+                rec["thread"].join(WAIT)
+                if rec["thread"].is_alive():
+                    raise HarnessTimeout("Sampler job: the worker thread did not finish")
+        else:
+            ret = job(*args, **kw) if spec["mode"] == "call" else job.execute_sync(*args, **kw)
+            obs["outs"]["exec"] = {"o": "accepted"}
+            obs["sync_val"] = ret
+    except HarnessTimeout:
+        raise
+    except Exception as e:
+        if rec["task"]:
+            obs["outs"]["exec"] = {"o": "accepted"}
+            obs["sync_exc"] = e
+        else:
+            obs["outs"]["exec"] = {"o": "exc", "e": canon_exc(e), "cls": type(e).__name__, "text": str(e)[:200]}
+    st = job.status
+    obs["status"] = [st(), str(st), st.stop_message, [bool(job.is_running), bool(job.is_complete), bool(job.is_success),
+                                                     bool(job.is_failed), bool(job.is_waiting)]]
+    gets = []
+    for _ in range(spec.get("gets", 2)):
+        try:
+            gets.append(("val", job.get_results()))
+        except Exception as e:
+            gets.append(("exc", e))
+    obs["gets"] = gets
+    st = job.status
+    obs["status2"] = [st(), str(st), st.stop_message]
+    obs["name"] = job.name
+    obs["rec"] = rec
+    return obs
+
+
+def sampler_canon(obs, value):
+    """a result value of a real Sampler job in the model's vocabulary: payload i of the task's raw result is `i`,
+    a recorded conversion output is {"m": <its input>, "kw": <its keyword arguments>} — an object that is neither is
+    reported as it is"""
+    rec = obs["rec"]
+    raw = rec.get("raw", [])
+
+    def val(o, depth=0):
+        if id(o) in raw:
+            return raw.index(id(o))
+        for c in rec["conv"]:
+            if c["out"] is o and depth < 4:
+                kw = sorted([[SAMPLER_IDS.get(k, f"?{k}"), v] for k, v in c["kw"].items()], key=lambda e: str(e[0]))
+                out = {"m": val(c["in"], depth + 1), "kw": kw}
+                if c["extra"]:
+                    out["positional"] = c["extra"]
+                return out
+        return {"other": type(o).__name__}
+
+    def itd(d):
+        out = []
+        for k, v in d.items():
+            kid = SAMPLER_IDS.get(k, f"?{k}")
+            out.append([kid, (SAMPLER_INPUTS.index(list(v)) if kid == 7 else v)])
+        return sorted(out, key=lambda e: str(e[0]))
+
+    if value is None:
+        return {"t": "none"}
+    if isinstance(value, dict) and "results" in value:
+        return {"t": "dict", "v": val(value["results"])}
+    if isinstance(value, dict) and "results_list" in value:
+        return {"t": "dlist", "l": [[itd(e.get("iteration", {})), val(e["results"])] for e in value["results_list"]]}
+    return {"t": "other", "repr": repr(value)[:80]}
+
+
+def sampler_expected_type(spec):
+    return {"probs": ("BSDistribution",), "sample_count": ("BSCount",), "samples": ("BSSamples", "list")}[spec["method"]]
+
+
+def sampler_check(chk, spec):
+    """-> None or (kind, signature, what)"""
+    obs = run_sampler(spec)
+    rec = obs["rec"]
+    preset = sampler_preset(spec, obs["probs_count"])
+    cfg = chk.lean.ask({"op": "preset", "preset": preset, "cb": bool(spec.get("cb") or spec.get("cancel") == "cb")})
+    if "err" in cfg:
+        raise core.LeanError(cfg["err"])
+    cfg = cfg["cfg"]
+    c = sampler_call(spec["how"], spec["mode"])
+    # the task is the ENVIRONMENT of the job: how it ended (what it returned / raised) is read off the real run
+    word = [{"e": "cancel"}] if spec.get("cancel") == "before" else []
+    word += [c, {"e": "start"}]
+    entered = bool(rec["task"])
+    if entered and spec.get("cancel") == "cb" and rec["cb"] > 0:
+        word += [{"e": "prog", "p": 0}, {"e": "cancel"}]      # the user's callback was invoked and called cancel()
+    if rec["raised"] is not None:
+        word.append({"e": "raise", "cls": 1, "msg": 1})
+    elif entered:
+        r = rec["returned"]
+        if isinstance(r, dict) and "results_list" in r:
+            retm = {"t": "dlist", "l": [[sampler_canon(obs, {"results_list": [e]})["l"][0][0], i]
+                                         for i, e in enumerate(r["results_list"])]}
+        elif isinstance(r, dict) and "results" in r:
+            retm = {"t": "dict", "v": 0}
+        else:
+            retm = {"t": "none"}
+        word.append({"e": "ret", "r": retm})
+    n_exec = len(word)
+    word += [{"e": "status"}] + [{"e": "get"}] * len(obs["gets"]) + [{"e": "status"}, {"e": "getname"}]
+    if spec.get("name") is not None:
+        word.insert(0, {"e": "setname", "v": spec["name"]})
+        n_exec += 1
+    rep = chk.lean.ask({"op": "trace", "fixed": True, "cfg": cfg, "word": word})
+    if "err" in rep:
+        raise core.LeanError(f"model rejected the Sampler history: {rep['err']}")
+    mouts = rep["outs"]
+    where = f"Sampler({spec['backend']}{', max_shots_per_call=%s' % spec['shots'] if spec['shots'] is not None else ''})" \
+            f".{spec['method']} with {len(spec['iters'])} iteration(s), called {spec['mode']} {spec['how']}"
+
+    def msg_of(m):
+        if m is None:
+            return None
+        if rec["raised"] is not None and m == f"{type(rec['raised']).__name__}: {rec['raised']}":
+            return {"task": [1, 1]}
+        if m == "User has canceled the job":
+            return "canceled"
+        return {"other": str(m)[:200]}
+
+    def status_out(s4):
+        return {"o": "status", "s": s4[0], "str": s4[1], "msg": msg_of(s4[2]), "p": None,
+                "flags": s4[3] if len(s4) > 3 else list(PREDICATES.get(s4[0], ()))}
+
+    def get_out(g):
+        if g[0] == "val":
+            return {"o": "results", "r": sampler_canon(obs, g[1])}
+        return {"o": "exc", "e": canon_exc(g[1]), "cls": type(g[1]).__name__, "text": str(g[1])[:200]}
+
+    observed = []
+    for ev, mo in zip(word, mouts):
+        k = ev["e"]
+        if k == "setname":
+            observed.append({"o": "nameset"})
+        elif k == "cancel":
+            observed.append({"o": "done"})
+        elif k in ("sync", "async"):
+            observed.append(obs["outs"]["exec"])
+        elif k == "start":
+            if entered:
+                t = rec["task"][0]
+                observed.append({"o": "started", "args": sorted([[SAMPLER_IDS.get(a, f"?{a}"), b] for a, b in t.items()],
+                                                                 key=lambda e: str(e[0]))})
+            else:
+                observed.append({"o": "disabled"})
+        elif k in ("ret", "raise"):
+            if c["e"] == "async":
+                sync = None
+            elif "sync_exc" in obs:
+                e = obs["sync_exc"]
+                sync = {"err": canon_exc(e), "cls": type(e).__name__, "text": str(e)[:200]}
+            else:
+                sync = {"val": sampler_canon(obs, obs.get("sync_val"))}
+            observed.append({"o": "finished", "sync": sync})
+        elif k == "prog":
+            observed.append({"o": "progressed", "cb": 1, "p": 0, "relay": False})
+        elif k == "status":
+            first = not any(x["e"] == "status" for x in word[:len(observed)])
+            observed.append(status_out(obs["status"] if first else obs["status2"]))
+        elif k == "get":
+            observed.append(get_out(obs["gets"][sum(1 for x in word[:len(observed)] if x["e"] == "get")]))
+        elif k == "getname":
+            observed.append({"o": "name", "s": obs["name"]})
+    # ---- the property, directly ----------------------------------------------------------------
+    vals = [g[1] for g in obs["gets"] if g[0] == "val"]
+    if obs["outs"]["exec"]["o"] == "accepted" and not entered:
+        return "violation", "accepted-not-run", f"{where}: the call was accepted but the task function was not entered"
+    if len(rec["task"]) > 1:
+        return "violation", "ran-twice", f"{where}: the task function was entered {len(rec['task'])} times"
+    if spec["how"][0] == "kwx" and obs["outs"]["exec"]["o"] != "exc":
+        return "violation", "unknown-args-accepted", f"{where}: the unknown keyword argument was accepted"
+    if spec["how"][0] == "kwx" and entered:
+        return "violation", "rejected-but-started", f"{where}: refused, but the task function was entered"
+    if any(v is not vals[0] for v in vals[1:]) and any(sampler_canon(obs, v) != sampler_canon(obs, vals[0]) for v in vals[1:]):
+        return "violation", "results-not-idempotent", (f"{where}: get_results() returned {sampler_canon(obs, vals[0])} and then "
+                                                       f"{[sampler_canon(obs, v) for v in vals[1:]]}")
+    if entered and rec["raised"] is None and vals:
+        ended_ok = spec.get("cancel") is None
+        want_status = "SUCCESS" if ended_ok else "CANCELED"
+        if obs["status2"][0] != want_status and not (spec.get("cancel") == "cb" and rec["cb"] == 0):
+            return "violation", "final-status-wrong", (f"{where}: the task returned, cancel {spec.get('cancel')}: final status "
+                                                       f"{obs['status2'][0]}, expected {want_status}")
+        r = rec["returned"]
+        entries = r["results_list"] if (isinstance(r, dict) and "results_list" in r) else ([r] if isinstance(r, dict) and "results" in r else [])
+        n_conv = len(rec["conv"])
+        if cfg["map"] and entries and n_conv != len(entries):
+            return "violation", "results-wrong", (f"{where}: {len(entries)} result(s) to convert, get_results() called "
+                                                  f"{len(obs['gets'])} time(s) (+ execute_sync's own): the conversion ran "
+                                                  f"{n_conv} time(s) — it must run exactly once per result")
+        for i, e in enumerate(vals[0]["results_list"] if "results_list" in vals[0] else [vals[0]]):
+            tn = type(e["results"]).__name__
+            if tn not in sampler_expected_type(spec):
+                return "violation", "results-wrong", (f"{where}: result {i} is a {tn}, expected {sampler_expected_type(spec)} "
+                                                      "(not converted, or converted more than once)")
+        # the arguments: what the user passed must be what the task / the conversion worked with
+        how = spec["how"]
+        passed = how[1] if how[0] in ("pos", "kw") else None
+        if preset["k"] in ("samplesNative", "probsViaSamples") and how[0] == "pos" and rec["task"][0].get("max_samples") != passed:
+            return "violation", "args-misrouted", (f"{where}: the task received max_samples={rec['task'][0].get('max_samples')}, "
+                                                   f"the user passed {passed}")
+        if preset["k"] == "samplesNative" and how[0] == "kw" and rec["task"][0].get("max_samples") != passed:
+            return "violation", "args-misrouted", (f"{where}: the task received max_samples={rec['task'][0].get('max_samples')}, "
+                                                   f"the user passed max_samples={passed}")
+        if preset["k"] == "probsViaSamples" and how[0] == "nothing" and rec["task"][0].get("max_samples") != obs["probs_count"]:
+            return "violation", "args-misrouted", (f"{where}: the task received max_samples={rec['task'][0].get('max_samples')}, "
+                                                   f"the Sampler preset is {obs['probs_count']}")
+        if preset["k"] == "sampleViaProbs" and how[0] in ("pos", "kw", "nothing"):
+            its = [dict((SAMPLER_KEYS[k], v) for k, v in it) for it in spec["iters"]] or [{}]
+            for i, (cv, it) in enumerate(zip(rec["conv"], its)):
+                want = {"max_samples": it.get("max_samples", passed), "max_shots": it.get("max_shots", spec["shots"])}
+                if cv["kw"] != want:
+                    return "violation", "results-wrong", (f"{where}: result {i} was converted with {cv['kw']}, the job's "
+                                                          f"conversion arguments for it are {want}")
+                if spec["method"] == "samples" or spec["method"] == "sample_count":
+                    ms, sh = want["max_samples"], want["max_shots"]
+                    count = min(ms, sh) if (ms is not None and sh is not None) else (sh or ms)
+                    got = len(cv["out"]) if spec["method"] == "samples" else sum(cv["out"].values())
+                    if got != count:
+                        return "violation", "results-wrong", (f"{where}: result {i} holds {got} samples, its conversion "
+                                                              f"arguments {want} ask for {count}")
+    if entered and rec["raised"] is not None:
+        e = rec["raised"]
+        if obs["status2"][0] != "ERROR" or obs["status2"][2] != f"{type(e).__name__}: {e}":
+            return "violation", "final-status-wrong", (f"{where}: the task raised {type(e).__name__}: {e}; final status "
+                                                       f"{obs['status2'][0]} ({obs['status2'][2]})")
+    if obs["status"][0] != obs["status"][1]:
+        return "violation", "status-forms-differ", f"{where}: job.status() = {obs['status'][0]!r}, str(job.status) = {obs['status'][1]!r}"
+    # ---- model vs. code ------------------------------------------------------------------------
+    for i, (o, m) in enumerate(zip(observed, mouts)):
+        if m["o"] == "disabled" and o["o"] == "disabled":
+            continue
+        if o["o"] == "status":
+            o = dict(o, p=m.get("p"))           # the progress value belongs to the simulator, not to the job
+        why = out_matches(o, m)
+        if why:
+            return "broken", "model-vs-code", f"{where}: step {i} ({word[i]['e']}): {why}; the direct evaluation of the property holds"
+    # the task side of the relay: a strong simulation reports its progress at least once and tests cancel_requested
+    if spec.get("cancel") == "before" and spec["backend"] == "SLOS" and not spec["iters"] and entered:
+        e = rec["raised"]
+        if not (isinstance(e, RuntimeError) and str(e) == "Cancel requested"):
+            return "broken", "cancel-not-seen-by-simulator", (
+                f"{where}: cancel() was called before the run; the strong simulation tests cancel_requested(progress_callback(...)) "
+                f"after its first progress report and raises RuntimeError('Cancel requested') (policy `raise` of the model: "
+                f"coop_cancel_takes_effect) — it {'raised ' + repr(e) if e is not None else 'returned normally'}")
+    # bookkeeping
+    chk.branch("sampler")
+    chk.branch(f"sampler-{preset['k']}")
+    chk.branch(f"sampler-{spec['mode']}")
+    chk.branch(f"sampler-how-{spec['how'][0]}")
+    if spec["iters"]:
+        chk.branch("sampler-iterated")
+        if cfg["map"] and entered and rec["raised"] is None:
+            chk.branch("sampler-iterated-conversion")
+            if any(k in (0, 9) for it in spec["iters"] for k, _ in it) and preset["k"] == "sampleViaProbs":
+                chk.branch("sampler-iteration-overrides-mapping")
+    if obs["outs"]["exec"]["o"] == "exc":
+        chk.branch("sampler-rejected")
+        chk.count("sampler-rejection", obs["outs"]["exec"]["e"])
+    if spec.get("cancel") and entered:
+        chk.branch("sampler-cancel-raise" if rec["raised"] is not None else "sampler-cancel-return")
+    chk.count("sampler-final", f"{spec['backend']}/{spec['method']}:{obs['status2'][0]}")
+    return None
+
+
+def rand_sampler_spec(rng):
+    backend = rng.choice(["SLOS", "SLOS", "SLOS", "CliffordClifford2017"])
+    method = rng.choice(["probs", "samples", "sample_count"])
+    if backend != "SLOS" and method == "probs" and rng.random() < 0.7:
+        method = rng.choice(["samples", "sample_count"])        # (10000 samples per probs call: keep them few)
+    shots = rng.choice([None, None, 40, 300])
+    iters = []
+    if rng.random() < 0.5:
+        for _ in range(rng.randint(1, 3)):
+            it = []
+            if rng.random() < 0.5:
+                it.append([0, rng.randint(5, 60)])
+            if rng.random() < 0.3:
+                it.append([9, rng.randint(5, 60)])
+            if rng.random() < 0.4:
+                it.append([7, rng.randrange(1, 3)])
+            if not it:
+                it.append([7, rng.randrange(3)])
+            iters.append(it)
+    n = rng.randint(5, 80)
+    r = rng.random()
+    if r < 0.4:
+        how = ["pos", n]
+    elif r < 0.65:
+        how = ["kw", n]
+    elif r < 0.75:
+        how = ["nothing"]
+    elif r < 0.82:
+        how = ["posKw", rng.choice([n, None]), rng.randint(5, 80)]
+    elif r < 0.9:
+        how = ["pos2", n, rng.randint(5, 80)]
+    else:
+        how = ["kwx", rng.choice([9, 7, 5]), rng.randint(1, 9)]
+    native_probs = backend == "SLOS"
+    if how[0] == "pos2" and not native_probs and method != "samples":
+        # outside the model's assumption "the mapping function is total": the second positional is stored as the
+        # conversion's max_samples, and samples_to_sample_count / samples_to_probs take no keyword at all — the
+        # conversion raises TypeError and get_results() says "Results are not available" (observed, not judged)
+        how = ["pos", n]
+    # stay inside the model's assumptions: the conversion is total (it needs a sample count) and the sampling task is
+    # given one (otherwise it raises — allowed, but then nothing is converted)
+    needs_count = method != "probs"
+    has_count = shots is not None or (how[0] in ("pos", "kw", "pos2") and how[1] is not None) or \
+        (how[0] == "posKw" and how[1] is not None)
+    if needs_count and not has_count and native_probs:
+        shots = 50
+    spec = {"backend": backend, "method": method, "shots": shots, "iters": iters, "how": how,
+            "mode": rng.choice(["sync", "sync", "call", "async"]), "gets": rng.choice([1, 2, 2, 3]),
+            "cb": rng.random() < 0.4, "cancel": rng.choice([None, None, None, None, "before", "cb"]),
+            "name": rng.choice([None, None, "", "my sampling"])}
+    if how[0] == "kwx" and how[1] == 9 and method != "probs" and native_probs and shots is None:
+        spec["how"] = ["kwx", 7, 1]      # max_shots=… IS a legal keyword when the mapping entry is None
+    return spec
+
+
+def sampler_specs_fixed():
+    """every (backend, method) x way of passing max_samples x sync/call/async, without and with iterations that override
+    the conversion arguments, + cancel before the run"""
+    out = []
+    for backend in ("SLOS", "CliffordClifford2017"):
+        for method in ("probs", "samples", "sample_count"):
+            if backend != "SLOS" and method == "probs":
+                hows = [["nothing"], ["pos", 40], ["kw", 40]]
+            else:
+                hows = [["pos", 30], ["kw", 30], ["nothing"], ["posKw", 30, 20], ["posKw", None, 20], ["pos2", 30, 20],
+                        ["kwx", 7, 1]]
+            if backend != "SLOS" and method == "sample_count":
+                hows.remove(["pos2", 30, 20])     # (conversion without keywords: see rand_sampler_spec)
+            for hi, how in enumerate(hows):
+                for ii, iters in enumerate(([], [[[0, 7]], [[7, 1]], [[0, 9], [9, 8]]])):
+                    shots = 50 if (method != "probs" and how[0] in ("nothing",)) or hi % 3 == 2 else None
+                    out.append({"backend": backend, "method": method, "shots": shots, "iters": iters, "how": how,
+                                "mode": ["sync", "call", "async"][(hi + ii) % 3], "gets": 2 + (hi % 2), "cb": bool(ii),
+                                "cancel": None, "name": None})
+            for iters in ([], [[[0, 7]], [[7, 1]]]):
+                for cancel in ("before", "cb"):
+                    out.append({"backend": backend, "method": method, "shots": 50, "iters": iters, "how": ["pos", 30]
+                                if method != "probs" else ["nothing"], "mode": "sync", "gets": 2, "cb": True,
+                                "cancel": cancel, "name": "cancelled run"})
+    return out
+
+
+def handle_sampler(chk, spec, seen):
+    res = sampler_check(chk, spec)
+    chk.case(("sampler", json.dumps(spec, sort_keys=True)), nontrivial=bool(spec["iters"]) or spec["mode"] == "async",
+             sample=spec)
+    if res is not None:
+        kind, sig, what = res
+        if seen.wanted(kind, sig):
+            seen.sigs[("seen", kind, sig)] = seen.sigs.get(("seen", kind, sig), 0) + 1
+            small = shrink_sampler(chk, spec, sig)
+            r2 = sampler_check(chk, small)
+            chk.fail(kind, sig, (r2 or res)[2], {"sampler": small if r2 else spec})
+        else:
+            seen.sigs[("seen", kind, sig)] += 1
+        chk.count("failures", f"{kind}:{sig}")
+
+
+def shrink_sampler(chk, spec, sig):
+    cur = copy.deepcopy(spec)
+
+    def same(cand):
+        try:
+            r = sampler_check(chk, cand)
+        except HarnessTimeout:
+            raise
+        except Exception:
+            return False
+        return r is not None and r[1] == sig
+    for f, v in (("name", None), ("cb", False), ("cancel", None), ("gets", 2), ("gets", 1), ("mode", "sync"), ("shots", None)):
+        cand = dict(cur, **{f: v})
+        if cand != cur and same(cand):
+            cur = cand
+    while cur["iters"]:
+        for i in range(len(cur["iters"])):
+            cand = dict(cur, iters=cur["iters"][:i] + cur["iters"][i + 1:])
+            if same(cand):
+                cur = cand
+                break
+        else:
+            break
+    return cur
+
+
+def sampler_part(chk, seen):
+    specs = sampler_specs_fixed()
+    for spec in specs:
+        chk.branch("sampler-scenario")
+        handle_sampler(chk, spec, seen)
+    n = chk.pick(150, 900)
+    for _ in range(n):
+        handle_sampler(chk, rand_sampler_spec(chk.rng), seen)
+    chk.extra["sampler_jobs"] = {"fixed": len(specs), "random": n}
+
+
+def extension_scenarios(chk, seen):
+    """Deterministic histories for the extended machine (Model/C18Ext): the job's name read and set before, during
+    (from the callback and from the caller thread) and after the run — non-empty, empty, not a string —, `job(...)`
+    instead of `execute_sync(...)`, user callbacks that return None / a dict with and without 'cancel_requested' / an
+    object without `.get`, the relay after a cancel, both result shapes."""
+    cfg = {"names": [1], "cmd": [], "mapping": [[2, 3], [0, None]], "map": True, "cb": True}
+    retl = {"t": "dlist", "l": [[[[0, 4]], 1], [[], 2], [[[2, None], [6, 1]], 3]]}
+    n = 0
+    for mode in ("sync", "async", "instant"):
+        for ri, ret in enumerate((RET0, retl)):
+            m = "async" if mode == "instant" else mode
+            ex = call(args=[5], e=m)
+            if mode == "sync":
+                ex["via"] = "call"
+            w = "cb"
+            word = [{"e": "getname"}, {"e": "setname", "v": ""}, {"e": "getname"}, {"e": "setname", "v": None, "w": "x" * ri},
+                    ex, {"e": "start"}, {"e": "prog", "p": 1, "u": "none"},
+                    {"e": "setname", "v": "in flight", "where": w}, {"e": "getname", "where": w}, {"e": "status", "where": w},
+                    {"e": "prog", "p": 2, "u": {"dict": True}, "uv": ri}, {"e": "setname", "v": None, "where": w},
+                    {"e": "prog", "p": 3, "u": {"dict": None}, "uv": ri}, {"e": "prog", "p": 4, "u": "other"},
+                    {"e": "prog", "p": 5, "u": {"dict": False}, "uv": ri}, {"e": "cancel", "where": w},
+                    {"e": "prog", "p": 6, "u": "none"}, {"e": "prog", "p": 7, "u": {"dict": False}},
+                    {"e": "ret", "r": ret}, {"e": "status"}, {"e": "get"}, {"e": "setname", "v": "done"}, {"e": "get"},
+                    {"e": "getname"}]
+            scn = {"cfg": cfg, "word": copy.deepcopy(word)}
+            if mode == "instant":
+                scn["instant"] = True
+            chk.branch("extension-scenario")
+            handle(chk, scn, seen)
+            n += 1
+            if mode == "async":        # the same with the in-flight name operations on the caller thread
+                for e in word:
+                    if e.get("where") == "cb" and e["e"] in ("setname", "getname"):
+                        e["where"] = "main"
+                handle(chk, {"cfg": cfg, "word": copy.deepcopy(word)}, seen)
+                n += 1
+    chk.extra["extension_scenarios"] = n
+
+
 def argument_scenarios(chk, seen):
     """"Unknown arguments are rejected before the task starts", for all ways of passing them: for sync/async x
     0..2 declared positional names x every kind of illegal call (2/3/4 surplus positionals alone, with legal
@@ -1814,6 +2682,8 @@ def load_corpus():
         d = json.load(open(p))
         if "jobs" in d:
             out.append({"jobs": d["jobs"], "nest": d.get("nest")})
+        elif "sampler" in d:
+            out.append({"sampler": d["sampler"]})
         else:
             out.append(strip(d))
     return out
@@ -1860,7 +2730,14 @@ def run(chk: core.Check):
                 "names x sync/async followed by status, a legal call and a complete run; random part: longer words over "
                 "random configurations, argument lists (15% of the histories with malformed calls: undeclared keywords, "
                 "surplus positionals, or both) and return shapes; distinct = distinct "
-                "(configuration, word); non-trivial = at least one caller action performed while the task is in flight")
+                "(configuration, word); non-trivial = at least one caller action performed while the task is in flight; "
+                "EXTENDED alphabet (Model/C18Ext): job(...) = Job.__call__, job.name get/set (non-empty, empty, not a string), "
+                "progress reports whose user callback returns None / a dict with or without 'cancel_requested' / an object "
+                "without .get, with the real cancel_requested applied to what the task gets back; COOPERATIVE tasks in closed "
+                "loop (the task decides its own steps with the real cancel_requested, policy raise/stop/ignore; fixed "
+                "scenarios + random); SAMPLER jobs on local SLOS / CliffordClifford2017 processors: every (backend, method) "
+                "x way of passing max_samples x sync/call/async x iterations overriding the conversion arguments x cancel "
+                "before / from the callback, fixed + random, compared with the model on the preset configuration")
     chk.required_branches = ["sync", "async", "in-flight-sync", "in-flight-async", "cb-action-async",
                              "cancel-before-return", "cancel-after-return", "cancel-relayed", "callback-invoked",
                              "raise", "propagate", "rejected-args", "exec-twice-rejected", "positional", "keyword",
@@ -1874,17 +2751,33 @@ def run(chk: core.Check):
                              "async-instant-cb-action", "instant-scenario",
                              "multi-job-group", "multi-job-nested", "other-job-while-in-flight", "ctor-delta-omitted",
                              "ctor-names-omitted", "later-job-omits-argument", "later-job-omits-max-samples",
-                             "group-scenario"]
+                             "group-scenario",
+                             "job-call", "name-set", "name-unnamed", "name-type-error", "name-in-flight",
+                             "user-reply-cancel", "user-reply-crash", "relay-understood", "extension-scenario",
+                             "coop", "coop-raise", "coop-stop", "coop-ignore", "coop-scenario", "coop-instant",
+                             "coop-cancel-cuts-task-short", "coop-raise-cancel-requested", "coop-attribute-error",
+                             "coop-stopped-by-callback-success", "coop-stop-canceled-partial",
+                             "sampler", "sampler-scenario", "sampler-probsNative", "sampler-sampleViaProbs",
+                             "sampler-probsViaSamples", "sampler-samplesNative", "sampler-sync", "sampler-call",
+                             "sampler-async", "sampler-how-pos", "sampler-how-kw", "sampler-how-nothing",
+                             "sampler-how-posKw", "sampler-how-pos2", "sampler-how-kwx", "sampler-iterated",
+                             "sampler-iterated-conversion", "sampler-iteration-overrides-mapping", "sampler-rejected",
+                             "sampler-cancel-raise", "sampler-cancel-return"]
     for scn in load_corpus():
         chk.branch("corpus")
         if "jobs" in scn:
             handle_group(chk, scn["jobs"], scn["nest"], seen)
+        elif "sampler" in scn:
+            handle_sampler(chk, scn["sampler"], seen)
         else:
             handle(chk, scn, seen)
     group_scenarios(chk, seen)
     plain_scenarios(chk, seen)
     argument_scenarios(chk, seen)
     instant_scenarios(chk, seen)
+    extension_scenarios(chk, seen)
+    coop_scenarios(chk, seen)
+    sampler_part(chk, seen)
     # exhaustive interleavings
     # (task events incl. start and end, caller actions); the first (positional) configuration gets the
     # large bound, the two other ways of passing the argument a smaller one
@@ -1927,6 +2820,16 @@ def run(chk: core.Check):
         jobs, nest = rand_group(chk, rng, chk.pick(8, 14))
         handle_group(chk, jobs, nest, seen)
     chk.extra["random_job_groups"] = n_groups
+    # cooperative tasks in closed loop (the task side of the cancel relay)
+    n_coop = chk.pick(250, 1500)
+    for _ in range(n_coop):
+        cfg, prog, cword, instant = rand_coop(chk, rng)
+        scn, rep = coop_scenario(chk, cfg, prog, cword, instant=instant)
+        note_coop(chk, prog, rep)
+        if scn.get("instant"):
+            chk.branch("coop-instant")
+        handle(chk, scn, seen)
+    chk.extra["random_cooperative_tasks"] = n_coop
     # random longer histories
     n = chk.pick(800, 4000)
     max_len = chk.pick(14, 40)
@@ -1952,6 +2855,9 @@ def replay(chk, data):
     rp = data["replay"]
     if "plain" in rp:
         plain_scenarios(chk, seen)
+        return
+    if "sampler" in rp:
+        handle_sampler(chk, rp["sampler"], seen)
         return
     if "jobs" in rp:
         chk.branch("replay-group")
